@@ -64,10 +64,12 @@ pub fn queue_op(img: &[u8], pc: &PointCloud, pci: usize, policy: &str, seed: u64
             _ => can_adv && avail < 1 && popped < pc.records,
         };
         if do_adv {
+            let w0 = e57::verif::work_total();
             let r = catch(|| q.advance());
+            let work = e57::verif::work_total() - w0;
             adv += 1;
             match r {
-                Ok(Ok(())) => t.ev(json!({"ev":"q_advance","res":ok(json!(0)),"avail":q.available()})),
+                Ok(Ok(())) => t.ev(json!({"ev":"q_advance","res":ok(json!(0)),"avail":q.available(),"work":work})),
                 Ok(Err(_)) => {
                     t.ev(json!({"ev":"q_advance","res":err(),"avail":0}));
                     return;
